@@ -51,13 +51,13 @@ end NostrRelay.Handler
 namespace NostrRelay.Proto
 
 /-- **C19 (an open connection is never wedged)** — in every state the handler of an open connection
-    can process a REQ, a CLOSE and a refused EVENT; an accepted fresh EVENT is enabled as soon as the
-    previous notification round has run, and that round can always make progress (C05_task_enabled) -/
+    can process a REQ, a CLOSE, a refused EVENT and an accepted fresh EVENT, whatever notify tasks are still
+    pending (and those can always make progress: C05_task_enabled) -/
 theorem C19_open_conn_never_wedged (s : State) (c : Nat) (ho : s.isOpen c = true) :
     (∀ sub u a ans, (step s (.req c sub u a ans)).isSome)
     ∧ (∀ sub, (step s (.close c sub)).isSome)
     ∧ (∀ ev, (step s (.event c ev false)).isSome)
-    ∧ (∀ ev, ev ∉ s.stored → s.notifyTasks = [] → (step s (.event c ev true)).isSome)
+    ∧ (∀ ev, ev ∉ s.stored → (step s (.event c ev true)).isSome)
     ∧ (step s (.disconnect c)).isSome := by
   refine ⟨?_, ?_, ?_, ?_, ?_⟩
   · intro sub u a ans
@@ -69,8 +69,8 @@ theorem C19_open_conn_never_wedged (s : State) (c : Nat) (ho : s.isOpen c = true
       · split <;> rfl
   · intro sub; simp [step, ho]
   · intro ev; simp [step, ho]
-  · intro ev hf hq
-    simp [step, ho, hq, hf]
+  · intro ev hf
+    simp [step, ho, hf]
   · simp [step, ho]
 
 /-- **C19 (other connections are not disturbed)** — a REQ, CLOSE, sender step or disconnect of one
